@@ -431,6 +431,54 @@ def sp_chr(ex, e, st):
     return c.at(0) if isinstance(c, Seq) else _int(c)
 
 
+def _dict(v):
+    from pyvc.sym import DictV
+    if not isinstance(v, DictV):
+        from pyvc.engine import Unsupported
+        raise Unsupported(f"contract expression expects a dict, the code now has {v!r} there (sidecar no longer binds)")
+    return v
+
+
+def sp_haskey(ex, e, st):
+    return _dict(ex.ev(e.args[0], st)).has[_int(ex.ev(e.args[1], st))]
+
+
+def sp_order(ex, e, st):
+    return _dict(ex.ev(e.args[0], st)).order
+
+
+def sp_sorted_positions(ex, e, st):
+    """sorted_positions(idx, acc, k, B): idx lists, in strictly increasing order and without omission, the vertices v < B that have an arc."""
+    idx, acc = _seq(ex.ev(e.args[0], st)), _mat(ex.ev(e.args[1], st))
+    k, bnd = _int(ex.ev(e.args[2], st)), _int(ex.ev(e.args[3], st))
+    a = idx.arr
+    off = idx.start
+    i, j, v = z3.Int("i#sp"), z3.Int("j#sp"), z3.Int("v#sp")
+    el = lambda t: a[off + t] if lit(off) != 0 else a[t]
+    facts = [idx.n >= 0,
+             z3.ForAll([i], z3.Implies(z3.And(0 <= i, i < idx.n), z3.And(0 <= el(i), el(i) < bnd, row_deg(acc, el(i)) > 0)), patterns=[el(i)]),
+             z3.ForAll([i, j], z3.Implies(z3.And(0 <= i, i < j, j < idx.n), el(i) < el(j)), patterns=[z3.MultiPattern(el(i), el(j))]),
+             z3.ForAll([i, v], z3.Implies(z3.And(0 <= i, i + 1 < idx.n, el(i) < v, v < el(i + 1)), row_deg(acc, v) == 0),
+                       patterns=[z3.MultiPattern(el(i), acc.arr2[v])]),
+             z3.ForAll([v], z3.Implies(z3.And(0 <= v, v < bnd, z3.Or(idx.n == 0, v < el(0), v > el(idx.n - 1))), row_deg(acc, v) == 0),
+                       patterns=[acc.arr2[v]])]
+    return z3.And(*facts)
+
+
+def sp_lm_of(ex, e, st):
+    """lm_of(d, acc, k[, B]): d is the latter map of the accessor restricted to the vertices below B (default 4^k): its keys are exactly the
+    vertices with an arc, each mapped to the list of its live successors in A<C<G<T order."""
+    d, acc = _dict(ex.ev(e.args[0], st)), _mat(ex.ev(e.args[1], st))
+    k = _int(ex.ev(e.args[2], st))
+    n_ = sp_ipow_val(4, k)
+    bnd = _int(ex.ev(e.args[3], st)) if len(e.args) > 3 else n_
+    v = z3.Int("v#lm")
+    dg = row_deg(acc, v)
+    vals = z3.And(d.vlen[v] == dg, *[z3.Implies(i < dg, d.varr[v][i] == acc.arr2[v][row_arc(acc, NONE, v, iv(i))]) for i in range(4)])
+    keys = z3.ForAll([v], z3.And(d.has[v] == z3.And(0 <= v, v < bnd, dg > 0), z3.Implies(d.has[v], vals)), patterns=[d.has[v]])
+    return keys
+
+
 def sp_occurs(ex, e, st):
     m, s_ = _seq(ex.ev(e.args[0], st)), _seq(ex.ev(e.args[1], st))
     return specz3.occ(m.arr, m.start, m.n, s_.arr, s_.start, s_.n)
@@ -743,6 +791,6 @@ def sp_accepts(ex, e, st):
 SPEC = {
     "forall": sp_forall, "forall_q": lambda ex, e, st: sp_forall(ex, e, st, expand=False), "exists": lambda ex, e, st: sp_forall(ex, e, st, exists=True), "implies": sp_implies, "old": sp_old,
     "digits": sp_digits, "val": sp_val, "dval": sp_dval, "val2": sp_val2, "canon": sp_canon, "ipow": sp_ipow, "dig": sp_dig,
-    "same": sp_same_seq, "upd": sp_upd, "accepts": sp_accepts, "comp": sp_comp, "chr_": sp_chr, "gc_window_ok": sp_gc_window_ok, "occurs": sp_occurs, "rc_code": sp_rc_code, "filter_ok": sp_filter_ok, "succ": sp_succ, "shuffled_row": sp_shuffled_row, "rng_is": sp_rng_is, "row_is": sp_row_is, "rdeg": sp_rdeg, "rarc": sp_rarc, "rdigit": sp_rdigit, "is_perm_row": sp_is_perm_row, "row": sp_row, "rwalkv": sp_rwalkv, "A2": sp_A2, "vt_matches": sp_vt_matches, "rwt": sp_rwt, "rlv": sp_rlv, "rhv": sp_rhv, "here": sp_here, "deg": sp_deg, "arc_of_digit": sp_arc_of_digit, "digit_of_arc": sp_digit_of_arc, "is_accessor": sp_is_accessor,
+    "same": sp_same_seq, "upd": sp_upd, "accepts": sp_accepts, "haskey": sp_haskey, "order": sp_order, "sorted_positions": sp_sorted_positions, "lm_of": sp_lm_of, "comp": sp_comp, "chr_": sp_chr, "gc_window_ok": sp_gc_window_ok, "occurs": sp_occurs, "rc_code": sp_rc_code, "filter_ok": sp_filter_ok, "succ": sp_succ, "shuffled_row": sp_shuffled_row, "rng_is": sp_rng_is, "row_is": sp_row_is, "rdeg": sp_rdeg, "rarc": sp_rarc, "rdigit": sp_rdigit, "is_perm_row": sp_is_perm_row, "row": sp_row, "rwalkv": sp_rwalkv, "A2": sp_A2, "vt_matches": sp_vt_matches, "rwt": sp_rwt, "rlv": sp_rlv, "rhv": sp_rhv, "here": sp_here, "deg": sp_deg, "arc_of_digit": sp_arc_of_digit, "digit_of_arc": sp_digit_of_arc, "is_accessor": sp_is_accessor,
     "is_table": sp_is_table, "first": sp_first, "second": sp_second, "dec_step": sp_dec_step, "walkv": sp_walkv, "enc_step": sp_enc_step, "fast_step": sp_fast_step, "fast_cells": sp_fast_cells, "floc": sp_floc, "link": sp_link, "wt": sp_wt, "lv": sp_lv, "hv": sp_hv, "ascents": sp_ascents, "nsucc": sp_nsucc, "rsum": sp_rsum, "code": sp_code, "dnav": sp_dnav, "codes": sp_codes, "is_dna": sp_is_dna, "pv": sp_pv, "store": sp_store, "A": sp_A, "D": sp_D, "P": sp_P, "seq_is": sp_seq_is, "seq_is_cons": sp_seq_is_cons, "ite": sp_ite, "isnone": sp_isnone, "cnt": sp_cnt, "ssum": sp_ssum,
 }
